@@ -1,319 +1,441 @@
-"""C20 — Xalan's containers behave like their standard models (DESIGN.md §5 C20).
+"""C20 — Xalan's containers and string class behave like their standard models (DESIGN.md §5 C20, design/C20.md).
 
-proof:          lean/XalanModel/Props/C20.lean (refinement of the transcribed code paths to List)
-correspondence: harness/c20_containers.cpp (real templates, ASan+UBSan, lock-step with std::)
-                vs lean/Driver/C20.lean (the same transcribed paths), same op log.
+proof:          lean/XalanModel/Props/C20.lean — refinement of the transcribed code paths of XalanVector, XalanMap
+                (+XalanSet), XalanDeque, XalanList and XalanDOMString to List / insertion-ordered association list,
+                by induction over operation histories, with the class invariants.
+correspondence: harness/c20_containers.cpp (real header templates, ASan+UBSan, lock-step with std::) and
+                harness/c20_string.cpp (XalanDOMString from the freshly built libxalan-c) vs lean/Driver/C20.lean
+                (the same transcribed paths) on the same generated request logs.
 """
+import itertools
+import json
 import os
-import subprocess
+import re
+import sys
 
 from vlib import common
 from vlib.common import Rng
 
+sys.path.insert(0, os.path.join(common.ROOT, "gen"))
+import c20_gen as G  # noqa: E402
+
 CLAIMED = True
 LEVEL = "proof"
-TECHNIQUE = "Lean 4 refinement proof (hand model of the container code paths -> List) + lock-step correspondence run against the real templates under ASan/UBSan"
-LEVEL_TEXT = ("Machine-checked refinement: every history of XalanVector operations within std::vector's preconditions "
-              "yields, in the transcribed code paths, no out-of-bounds/stale-iterator access, the std::vector element "
-              "sequence and size<=allocation (Props/C20.lean, induction over histories). The model is tied to the "
-              "working tree by replaying generated op logs on the real templates (ASan+UBSan, lock-step with std::) "
-              "and on the compiled Lean model and comparing size/capacity/contents after every operation.")
-LEVEL_NOTE = ("Trusted: Lean kernel; axioms propext/Classical.choice/Quot.sound only; the hand transcription of "
-              "XalanVector.hpp (checked by the correspondence run, bounded by generator coverage); element "
-              "construction/destruction and raw pointer arithmetic are abstracted to checked segment writes "
-              "(modelled, not verified; ASan covers them in the run). Map/list/deque/string: see DESIGN.md C20.")
-DESIGN_REF = "DESIGN.md section 5, C20"
+TECHNIQUE = ("Lean 4 refinement proofs (hand models of the container code paths -> List / association list, invariants by "
+             "induction over histories) + lock-step correspondence runs against the real templates and XalanDOMString "
+             "under ASan/UBSan")
+LEVEL_TEXT = ("Machine-checked refinement: every history of operations within the std:: preconditions yields, in the "
+              "transcribed code paths of XalanVector, XalanMap/XalanSet (entry list, free list, buckets of node pointers, "
+              "rehash, erase-threshold compaction, recycling, copy, swap), XalanDeque (block index), XalanList (node ids, "
+              "free list, splice) and XalanDOMString (NUL-terminated XalanVector + m_size), no out-of-bounds / dangling "
+              "access, the std:: observable state and the class invariant (Props/C20.lean, induction over histories). "
+              "The models are tied to the working tree by replaying generated request logs on the real code (ASan+UBSan, "
+              "lock-step with std::vector/map/set/deque/list/u16string) and on the compiled Lean models, comparing the "
+              "full observable dump (plus bucket/pointer/free-list counters read through a derived class) after every "
+              "operation.")
+LEVEL_NOTE = ("Trusted: Lean kernel; axioms propext/Classical.choice/Quot.sound only; the hand transcription of the five "
+              "headers / XalanDOMString.cpp (checked by the correspondence run, bounded by generator coverage). Modelled, not "
+              "verified: placement construction/destruction, raw pointer arithmetic of std::copy/copy_backward/fill/memmove, "
+              "the prev/next pointer surgery of XalanList (abstracted to sequence edits), capacities of bucket vectors, "
+              "the char* (transcoding) overloads of XalanDOMString, XalanDOMStringPool/HashTable, XalanBitmap, "
+              "XalanObjectCache. Five repairs are proposed (proposed/C20-*.diff) and the models follow the repaired code; "
+              "until they are committed the unrepaired behaviour is reported as narrowly keyed KNOWN-FINDINGs.")
+DESIGN_REF = "DESIGN.md section 5, C20; design/C20.md"
 
 THEOREMS = [
     "XalanModel.Props.C20.vector_step_refines",
     "XalanModel.Props.C20.vector_refines",
     "XalanModel.Props.C20.vector_reserve_capacity",
+    "XalanModel.Props.C20.vector_insertNSelf_refines",
+    "XalanModel.Props.C20.vector_resizeSelf_refines",
+    "XalanModel.Props.C20.vector_alias_as_written_counterexample",
+    "XalanModel.Props.C20.map_step_refines",
+    "XalanModel.Props.C20.map_refines_partial",
+    "XalanModel.Props.C20.map_new_inv",
+    "XalanModel.Props.C20.map_swap_inv",
+    "XalanModel.Props.C20.deque_step_refines",
+    "XalanModel.Props.C20.deque_refines",
+    "XalanModel.Props.C20.deque_observers",
+    "XalanModel.Props.C20.deque_resize_as_written_counterexample",
+    "XalanModel.Props.C20.list_constructNode_refines",
+    "XalanModel.Props.C20.list_erase_refines",
+    "XalanModel.Props.C20.domstring_resize_as_written_counterexample",
+    "XalanModel.Props.C20.domstring_substr_as_written_counterexample",
+    "XalanModel.Props.C20.domstring_append_npos_as_written_counterexample",
 ]
-
-NV = 4  # vector ids
-
-
-class PyVec:
-    """reference used only to generate sequences that respect std::vector's preconditions"""
-    def __init__(self):
-        self.v = [[] for _ in range(NV)]
-
-
-def gen_vec_seq(r, maxops):
-    ref = [[] for _ in range(NV)]
-    ops = []
-    nops = r.range(1, maxops)
-    small = r.chance(1, 2)
-    for _ in range(nops):
-        i = r.below(2) if small else r.below(NV)
-        l = ref[i]
-        k = r.weighted([("push", 10), ("pop", 3), ("ins1", 6), ("insn", 6), ("insr", 6), ("erase", 5),
-                        ("resize", 3), ("reserve", 3), ("clear", 1), ("assign", 2), ("copy", 3), ("swap", 2),
-                        ("newcap", 1)])
-        x = r.range(-9, 99)
-        if k == "push":
-            ops.append("vec push %d %d" % (i, x)); l.append(x)
-        elif k == "pop":
-            if not l:
-                continue
-            ops.append("vec pop %d" % i); l.pop()
-        elif k == "ins1":
-            p = r.range(0, len(l))
-            ops.append("vec ins1 %d %d %d" % (i, p, x)); l.insert(p, x)
-        elif k == "insn":
-            p = r.range(0, len(l)); n = r.weighted([(0, 1), (1, 3), (2, 3), (3, 2), (r.range(4, 12), 2)])
-            ops.append("vec insn %d %d %d %d" % (i, p, n, x)); l[p:p] = [x] * n
-        elif k == "insr":
-            j = (i + 1 + r.below(NV - 1)) % NV
-            if small:
-                j = 1 - i if i < 2 else 0
-            src = ref[j]
-            a = r.range(0, len(src)); b = r.range(a, len(src))
-            p = r.range(0, len(l))
-            ops.append("vec insr %d %d %d %d %d" % (i, p, j, a, b)); l[p:p] = src[a:b]
-        elif k == "erase":
-            a = r.range(0, len(l)); b = r.range(a, min(len(l), a + 4))
-            ops.append("vec erase %d %d %d" % (i, a, b)); del l[a:b]
-        elif k == "resize":
-            n = r.range(0, len(l) + 6)
-            ops.append("vec resize %d %d %d" % (i, n, x))
-            if n < len(l):
-                del l[n:]
-            else:
-                l.extend([x] * (n - len(l)))
-        elif k == "reserve":
-            ops.append("vec reserve %d %d" % (i, r.range(0, len(l) + 10)))
-        elif k == "clear":
-            ops.append("vec clear %d" % i); del l[:]
-        elif k == "assign":
-            j = (i + 1 + r.below(NV - 1)) % NV
-            src = ref[j]
-            a = r.range(0, len(src)); b = r.range(a, len(src))
-            ops.append("vec assign %d %d %d %d" % (i, j, a, b)); l[:] = src[a:b]
-        elif k == "copy":
-            j = r.below(NV)
-            ops.append("vec copy %d %d" % (i, j)); l[:] = list(ref[j])
-        elif k == "swap":
-            j = r.below(NV)
-            ops.append("vec swap %d %d" % (i, j)); ref[i], ref[j] = ref[j], ref[i]
-        elif k == "newcap":
-            ops.append("vec newcap %d %d" % (i, r.range(0, 12))); del l[:]
-    return ops
-
-
-RESET = ["vec new %d" % i for i in range(NV)]
-
-
-def valid(ops):
-    """re-check std preconditions of a (shrunk) sequence"""
-    ref = [[] for _ in range(NV)]
-    try:
-        for o in ops:
-            t = o.split()
-            k = t[1]; a = [int(x) for x in t[2:]]
-            i = a[0]; l = ref[i]
-            if k in ("new", "newcap", "clear"):
-                del l[:]
-            elif k == "push":
-                l.append(a[1])
-            elif k == "pop":
-                if not l:
-                    return False
-                l.pop()
-            elif k == "ins1":
-                if a[1] > len(l):
-                    return False
-                l.insert(a[1], a[2])
-            elif k == "insn":
-                if a[1] > len(l):
-                    return False
-                l[a[1]:a[1]] = [a[3]] * a[2]
-            elif k == "insr":
-                s = ref[a[2]]
-                if a[2] == i or a[1] > len(l) or not (a[3] <= a[4] <= len(s)):
-                    return False
-                l[a[1]:a[1]] = s[a[3]:a[4]]
-            elif k == "erase":
-                if not (a[1] <= a[2] <= len(l)):
-                    return False
-                del l[a[1]:a[2]]
-            elif k == "resize":
-                if a[1] < len(l):
-                    del l[a[1]:]
-                else:
-                    l.extend([a[2]] * (a[1] - len(l)))
-            elif k == "reserve":
-                pass
-            elif k == "assign":
-                s = ref[a[1]]
-                if a[1] == i or not (a[2] <= a[3] <= len(s)):
-                    return False
-                l[:] = s[a[2]:a[3]]
-            elif k == "copy":
-                l[:] = list(ref[a[1]])
-            elif k == "swap":
-                ref[i], ref[a[1]] = ref[a[1]], ref[i]
-            elif k in ("insself",):
-                if a[1] > len(l) or a[3] >= len(l):
-                    return False
-                l[a[1]:a[1]] = [l[a[3]]] * a[2]
-            elif k == "pushself":
-                if a[1] >= len(l):
-                    return False
-                l.append(l[a[1]])
-            else:
-                return False
-    except (IndexError, ValueError):
-        return False
-    return True
-
-
-def run_stream(harness, model, seqs, workdir, tag):
-    """seqs: list of op lists. Returns list of per-sequence results:
-    (status, first_bad_index, impl_line, model_line) with status in ok|std|model|crash"""
-    req = os.path.join(workdir, "c20_%s.req" % tag)
-    lines = []
-    owner = []
-    for si, ops in enumerate(seqs):
-        for o in RESET + ops:
-            lines.append(o)
-            owner.append(si)
-    with open(req, "w") as f:
-        f.write("\n".join(lines) + "\n")
-    il, ml, irc, mrc, ierr, merr = common.run_pair([harness], [model], req,
-                                                   impl_env={"ASAN_OPTIONS": "detect_leaks=1:abort_on_error=0",
-                                                             "UBSAN_OPTIONS": "print_stacktrace=1"})
-    res = [("ok", -1, "", "")] * len(seqs)
-    res = list(res)
-    live = None
-    if il and il[-1].startswith("live "):
-        live = int(il[-1].split()[1])
-        il = il[:-1]
-    done = set()
-    for idx in range(len(lines)):
-        si = owner[idx]
-        if si in done:
-            continue
-        iv = il[idx] if idx < len(il) else None
-        mv = ml[idx] if idx < len(ml) else None
-        if iv is None:
-            res[si] = ("crash", idx, ierr[-1500:], mv or "")
-            done.add(si)
-            break  # everything after a crash is unknown
-        if "!std" in iv:
-            res[si] = ("std", idx, iv, mv or "")
-            done.add(si)
-        elif iv != mv:
-            res[si] = ("model", idx, iv, mv if mv is not None else "<model stopped: %s>" % merr[-300:])
-            done.add(si)
-    crashed = irc != 0
-    return res, live, crashed, ierr, req
-
-
-def shrink(harness, model, ops, workdir, want):
-    """greedy one-op deletion keeping the same failure class"""
-    cur = list(ops)
-    improved = True
-    rounds = 0
-    while improved and rounds < 200:
-        improved = False
-        for k in range(len(cur) - 1, -1, -1):
-            cand = cur[:k] + cur[k + 1:]
-            if not valid(cand):
-                continue
-            rounds += 1
-            r, _, _, _, _ = run_stream(harness, model, [cand], workdir, "shrink")
-            if r[0][0] == want:
-                cur = cand
-                improved = True
-    return cur
-
+KINDS_CONT = ("vec", "map", "set", "deq", "lst")
 
 CORPUS = [
-    # minimised past failures / design §6 candidates run first
-    ["vec push 0 1", "vec push 0 2", "vec push 0 3", "vec push 0 4", "vec reserve 0 8", "vec insself 0 0 1 2"],
+    # minimised past failures / DESIGN §6 candidates run first
+    ("vec", ["vec push 0 1", "vec push 0 2", "vec push 0 3", "vec push 0 4", "vec reserve 0 8", "vec insself 0 0 1 2"]),
+    ("vec", ["vec push 0 1", "vec push 0 2", "vec resizeself 0 9 0"]),
+    ("vec", ["vec push 0 1", "vec push 0 2", "vec insself 0 2 3 0"]),
+    ("deq", ["deq new 0 10 0", "deq resize 0 4"]),
+    ("deq", ["deq new 0 3 8", "deq resize 0 0"]),
+    ("str", ["str app 0 97.98", "str resize 0 5 120"]),
+    ("str", ["str appn 0 0 5", "str resize 0 3 7"]),
+    ("str", ["str app 0 1.2.3.4", "str substr 1 0 1 npos"]),
+    ("str", ["str app 0 1.2.3.4", "str app 1 7", "str appsub 1 0 1 npos"]),
+    ("map", ["map new 0 3 4 2 3", "map ins 0 1 10", "map ins 0 2 20", "map ins 0 3 30", "map erase 0 3", "map ins 0 7 70",
+             "map erase 0 1", "map erase 0 2", "map ins 0 3 33", "map find 0 7", "map copy 1 0", "map swap 1 0"]),
+    ("lst", ["lst pushb 0 1", "lst pushb 0 2", "lst save 0 0 1", "lst eraseat 0 0", "lst pushf 0 5", "lst deref 0 0",
+             "lst pushb 1 7", "lst splice 1 0 0 1", "lst deref 0 1"]),
 ]
+
+
+def run_stream(harness, model, seqs, workdir, tag, env=None, timeout=120):
+    """seqs: list of op lists (one kind per stream).  The model is run once; the harness is restarted after a crash
+    with the sequences that follow the crashed one.  Returns (results, leaked, model_lines_by_seq) with results[si] =
+    (status, first_bad_index_in_ops, impl_line, model_line), status in ok|std|model|crash."""
+    req = os.path.join(workdir, "c20_%s.req" % tag)
+    lines = []
+    for ops in seqs:
+        lines.append("reset")
+        lines.extend(ops)
+    with open(req, "w") as f:
+        f.write("\n".join(lines) + "\n")
+    e = {"ASAN_OPTIONS": "detect_leaks=1:abort_on_error=0", "UBSAN_OPTIONS": "print_stacktrace=1"}
+    if env:
+        e.update(env)
+    il, ml, irc, mrc, ierr, merr = common.run_pair([harness], [model], req, impl_env=e, timeout=timeout)
+    # split model lines per sequence
+    mseq = []
+    pos = 0
+    for ops in seqs:
+        mseq.append(ml[pos + 1:pos + 1 + len(ops)])
+        pos += 1 + len(ops)
+    res = [None] * len(seqs)
+    leaked = 0
+    start = 0           # first sequence of the current harness run
+    guard = 0
+    timeouts = 0
+    while True:
+        guard += 1
+        if "TIMEOUT" in ierr:
+            timeouts += 1
+        pos = 0
+        crashed_at = None
+        clean_end = bool(il) and il[-1].startswith("live ")
+        body = il[:-1] if clean_end else il
+        for si in range(start, len(seqs)):
+            ops = seqs[si]
+            chunk = body[pos:pos + 1 + len(ops)]
+            pos += 1 + len(ops)
+            if len(chunk) < 1 + len(ops):
+                # the harness died while answering request number len(chunk)-1 of this sequence
+                k = max(0, len(chunk) - 1)
+                res[si] = ("crash", min(k, len(ops) - 1), ierr[-1500:], "")
+                crashed_at = si
+                break
+            out = chunk[1:]
+            st = ("ok", -1, "", "")
+            for k, iv in enumerate(out):
+                mv = mseq[si][k] if k < len(mseq[si]) else "<model stopped: %s>" % merr[-300:]
+                if iv == "skip":
+                    break
+                if iv.endswith("!std"):
+                    st = ("std", k, iv, mv)
+                    break
+                if iv != mv:
+                    st = ("model", k, iv, mv)
+                    break
+            res[si] = st
+        if clean_end:
+            try:
+                leaked += int(il[-1].split()[1])
+            except (IndexError, ValueError):
+                pass
+        if crashed_at is None or crashed_at + 1 >= len(seqs) or guard > 400 or timeouts >= 3:
+            if crashed_at is None and not clean_end and start < len(seqs):
+                # died after the last reply (e.g. in a destructor): attribute to the last sequence
+                res[len(seqs) - 1] = ("crash", len(seqs[-1]) - 1, ierr[-1500:], "")
+            break
+        start = crashed_at + 1
+        rest = []
+        for ops in seqs[start:]:
+            rest.append("reset")
+            rest.extend(ops)
+        req2 = os.path.join(workdir, "c20_%s_r.req" % tag)
+        with open(req2, "w") as f:
+            f.write("\n".join(rest) + "\n")
+        il, _ml, irc, _mrc, ierr, _merr = common.run_pair([harness], ["true"], req2, impl_env=e, timeout=timeout)
+    for si in range(len(seqs)):
+        if res[si] is None:
+            res[si] = ("unrun", 0, "not evaluated: the harness crashed more than 400 times (or hung 3 times) in this stream", "")
+    return res, leaked, mseq
+
+
+def features(kind, mlines):
+    """which non-default model branches a sequence reached, read off the model's replies"""
+    f = set()
+    if kind in ("map", "set"):
+        prev_nb = None; prev_free = None
+        for l in mlines:
+            m = re.search(r"nb=(\d+) ptr=(\d+) stale=(\d+) free=(\d+)", l)
+            if not m:
+                if kind == "set" and l.startswith("r="):
+                    f.add("set-query")
+                continue
+            nb, ptr, stale, free = map(int, m.groups())
+            if prev_nb not in (None, 0) and nb != prev_nb:
+                f.add("rehash-or-rebucket")
+            if prev_free is not None and free < prev_free:
+                f.add("recycle")
+            if stale > 0:
+                f.add("stale-pointer")
+            if ptr > int(l.split(" nb=")[0].split()[-1]) and stale == 0:
+                f.add("stale-pointer-to-recycled-node")
+            prev_nb, prev_free = nb, free
+    elif kind == "deq":
+        for l in mlines:
+            m = re.match(r"(\d+) e=", l)
+            if m and int(m.group(1)) > 3:
+                f.add("multi-block")
+    elif kind == "lst":
+        prev = None
+        for l in mlines:
+            m = re.search(r"(\d+) blocks=(\d+)", l)
+            if m:
+                cur = (int(m.group(1)), int(m.group(2)))
+                if prev and cur[0] > prev[0] and cur[1] == prev[1]:
+                    f.add("free-list-reuse")
+                prev = cur
+            if l.startswith("r="):
+                f.add("saved-iterator")
+    elif kind == "str":
+        for l in mlines:
+            m = re.match(r"(\d+) (\d+) t=", l)
+            if m and int(m.group(2)) > int(m.group(1)):
+                f.add("spare-capacity")
+    elif kind == "vec":
+        f.add("vec")
+    return f
+
+
+class Runner:
+    def __init__(self, ctx, with_string=True):
+        self.ctx = ctx
+        self.work = os.path.join(common.CACHE, "work")
+        os.makedirs(self.work, exist_ok=True)
+        self.model = ctx.exe("xm_c20")
+        self.h_cont = common.build_harness("c20_containers", ["c20_containers.cpp"], flavor="hooks", sanitize=True,
+                                           link_repo=False)
+        self.h_str = common.build_harness("c20_string", ["c20_string.cpp"], flavor="hooks", sanitize=True,
+                                          extra=["-DNDEBUG"]) if with_string else None
+
+    def harness(self, kind):
+        return self.h_str if kind == "str" else self.h_cont
+
+    def run(self, kind, seqs, tag):
+        env = {"ASAN_OPTIONS": "detect_leaks=0:abort_on_error=0"} if kind == "str" else None
+        # a hang (e.g. a corrupted list that never reaches end()) is cut off and treated like a crash
+        return run_stream(self.harness(kind), self.model, seqs, self.work, tag, env,
+                          timeout=(900 if self.ctx.thorough else 30) if len(seqs) > 1 else 5)
+
+    def shrink(self, kind, ops, want, wanttag):
+        cur = list(ops)
+        improved = True
+        rounds = 0
+        self.shrunk = getattr(self, "shrunk", 0) + 1
+        if self.shrunk > 6:          # time box: only the first few failing cases of a run are minimised
+            return cur
+        while improved and rounds < 120:
+            improved = False
+            for k in range(len(cur) - 1, -1, -1):
+                cand = cur[:k] + cur[k + 1:]
+                tg = G.tags(kind, cand) if cand else None
+                if not tg:
+                    continue
+                rounds += 1
+                r, _, _ = self.run(kind, [cand], "shrink")
+                st = r[0]
+                if st[0] == want and (wanttag is None or tg[st[1]] == wanttag):
+                    cur = cand[:st[1] + 1]
+                    improved = True
+                    break
+        return cur
+
+
+def known(ctx, key):
+    return any(f.get("match") and re.search(f["match"], key) for f in ctx.findings)
+
+
+def judge(ctx, rn, kind, ops, st, agree_box):
+    """turn one non-ok sequence result into a failure / obligation"""
+    status, idx, iv, mv = st
+    tg = G.tags(kind, ops) or ["?"] * len(ops)
+    tag = tg[idx] if 0 <= idx < len(tg) else "?"
+    upto = ops[:idx + 1]
+    if status in ("std", "crash"):
+        word = "std-mismatch" if status == "std" else "crash"
+        key = "%s.%s[%s]: %s" % (kind, word, tag, " ; ".join(upto))
+        if not known(ctx, key):
+            small = rn.shrink(kind, upto, status, tag)
+            key = "%s.%s[%s]: %s" % (kind, word, tag, " ; ".join(small))
+            upto = small
+        what = ("observable state differs from the std:: reference: impl=%r expected(model)=%r" % (iv, mv) if status == "std"
+                else "harness aborted (sanitizer / assertion / crash): " + iv[-900:])
+        ctx.fail(key, what, {"kind": kind, "ops": upto})
+    else:
+        agree_box[0] = False
+        small = rn.shrink(kind, upto, "model", None)
+        r, _, _ = rn.run(kind, [small], "shrink")
+        ctx.extra.setdefault("model_disagreements", []).append(
+            {"kind": kind, "ops": small, "impl": r[0][2], "model": r[0][3]})
+
+
+def exhaustive_small(kind):
+    """all sequences of <= n requests over a compact alphabet (thorough tier)"""
+    if kind == "vec":
+        alpha = ["vec push 0 1", "vec pop 0", "vec ins1 0 0 2", "vec insn 0 1 2 3", "vec erase 0 0 1",
+                 "vec resize 0 3 4", "vec reserve 0 5", "vec copy 0 1", "vec push 1 7", "vec swap 0 1"]
+        n = 4
+    elif kind == "map":
+        alpha = ["map new 0 3 4 1 2", "map ins 0 0 1", "map ins 0 1 2", "map ins 0 2 3", "map ins 0 4 5", "map erase 0 0",
+                 "map erase 0 1", "map erase 0 2", "map set 0 1 9", "map clear 0", "map copy 1 0", "map swap 0 1"]
+        n = 4
+    elif kind == "deq":
+        alpha = ["deq new 0 2 0", "deq push 0 1", "deq push 0 2", "deq pop 0", "deq resize 0 1", "deq resize 0 3", "deq clear 0",
+                 "deq copy 1 0", "deq swap 0 1", "deq copyctor 1 0"]
+        n = 5
+    elif kind == "lst":
+        alpha = ["lst pushb 0 1", "lst pushf 0 2", "lst popb 0", "lst popf 0", "lst insat 0 1 3", "lst eraseat 0 0",
+                 "lst save 0 0 0", "lst eraseit 0 0", "lst splice 1 0 0 0", "lst splice 0 0 0 1", "lst clear 0", "lst swap 0 1"]
+        n = 4
+    elif kind == "str":
+        alpha = ["str app 0 1.2", "str appn 0 0 5", "str appn 0 2 6", "str ins 0 1 7", "str erase 0 0 1", "str eraseat 0 0",
+                 "str resize 0 1 8", "str resize 0 3 8", "str assign 1 0", "str assignsub 1 0 0 1", "str swap 0 1", "str erase 0 0 npos"]
+        n = 4
+    else:
+        return []
+    out = []
+    for k in range(1, n + 1):
+        for combo in itertools.product(alpha, repeat=k):
+            if G.tags(kind, list(combo)) is not None:
+                out.append(list(combo))
+    return out
 
 
 def run(ctx):
-    ctx.rule = ("operation sequences on 4 XalanVector<int> instances generated from VERIF_SEED within std::vector's "
-                "preconditions; a case is one sequence; non-trivial = sequence that reaches a re-allocation, an in-place "
-                "insert (either split case) or an erase/resize shrink in the model; distinct = distinct op text")
+    ctx.rule = ("a case is one operation sequence on up to 4 instances of one container kind (XalanVector<int>, XalanMap<CKey,int> "
+                "with a pairwise-colliding hasher, XalanSet<CKey>, XalanDeque<int>, XalanList<int>, XalanDOMString), generated "
+                "from VERIF_SEED within the std:: preconditions; non-trivial = the model reached, on that sequence, a rehash / "
+                "recycled entry / stale bucket pointer (map, set), a second block (deque), a free-list reuse or saved iterator "
+                "(list), spare capacity (string), a shifting insert/erase/resize/copy (vector); distinct = distinct request text")
     ctx.trusted += [
-        "harness/c20_containers.cpp + checks/c20.py (generator, comparison)",
-        "modelled, not verified: placement construction/destruction of elements, pointer arithmetic of std::copy/"
-        "copy_backward/fill (abstracted to checked segment writes); exercised under ASan+UBSan in the harness",
+        "harness/c20_containers.cpp, harness/c20_string.cpp, gen/c20_gen.py, checks/c20.py (generators, std:: references, comparison)",
+        "modelled, not verified: placement construction/destruction, pointer arithmetic of std::copy/copy_backward/fill/memmove, "
+        "XalanList prev/next surgery (sequence edits in the model), bucket-vector capacities, char* overloads of XalanDOMString; "
+        "exercised under ASan+UBSan in the harness",
     ]
-    ctx.build("hooks")
+    nolib = os.environ.get("VERIF_C20_NOLIB") == "1"   # mutation trials on the header-only containers: skip the library
+    if not nolib:
+        ctx.build("hooks")
     ctx.lean("XalanModel.Props.C20", THEOREMS, extra_targets=["xm_c20"])
-    model = ctx.exe("xm_c20")
-    harness = common.build_harness("c20_containers", ["c20_containers.cpp"], flavor="hooks", sanitize=True)
-    work = os.path.join(common.CACHE, "work")
-    os.makedirs(work, exist_ok=True)
-    if model is None:
+    if ctx.exe("xm_c20") is None:
         return
+    rn = Runner(ctx, with_string=not nolib)
 
     r = Rng(ctx.seed)
-    nseq, maxops = (2000, 60) if not ctx.thorough else (60000, 200)
-    seqs = [list(c) for c in CORPUS]
-    ncorpus = len(seqs)
-    for _ in range(nseq):
-        seqs.append(gen_vec_seq(r, maxops))
-    if ctx.thorough:
-        # small-scope exhaustive: all sequences of <= 4 ops over a compact alphabet on one vector
-        alpha = ["vec push 0 1", "vec pop 0", "vec ins1 0 0 2", "vec insn 0 1 2 3", "vec erase 0 0 1",
-                 "vec resize 0 3 4", "vec reserve 0 5", "vec copy 0 1", "vec push 1 7", "vec swap 0 1"]
-        import itertools
-        for n in range(1, 5):
-            for combo in itertools.product(alpha, repeat=n):
-                if valid(list(combo)):
-                    seqs.append(list(combo))
-    res, live, crashed, ierr, req = run_stream(harness, model, seqs, work, "main")
-    agree = True
-    for si, (st, idx, iv, mv) in enumerate(res):
-        ops = seqs[si]
-        text = " ; ".join(ops)
-        nontriv = any(o.split()[1] in ("ins1", "insn", "insr", "erase", "resize", "copy", "assign") for o in ops) and len(ops) > 3
-        ctx.case(nontrivial_key=text if nontriv else None, sample=ops if si in (ncorpus, ncorpus + 1) else None,
-                 cls="len<=10" if len(ops) <= 10 else "len<=30" if len(ops) <= 30 else "len>30")
-        if st == "ok":
-            continue
-        if st == "crash":
-            small = shrink(harness, model, ops, work, "crash")
-            ctx.fail("vec.crash: " + " ; ".join(small), "harness aborted (sanitizer/crash): " + iv[-800:], small)
-        elif st == "std":
-            small = shrink(harness, model, ops, work, "std")
-            kinds = sorted(set(o.split()[1] for o in small))
-            key = "vec.std-mismatch[%s]: %s" % (",".join(k for k in kinds if k in ("insself", "pushself")) or "plain", " ; ".join(small))
-            ctx.fail(key, "XalanVector contents differ from std::vector: impl=%r" % iv, small)
-        elif st == "model":
-            agree = False
-            small = shrink(harness, model, ops, work, "model")
-            ctx.extra.setdefault("model_disagreements", []).append({"ops": small, "impl": iv, "model": mv})
-    ctx.oblige("correspondence: XalanVector<int> (real code) = Lean model on every generated op log", "correspondence",
-               agree, str(ctx.extra.get("model_disagreements", [])[:2]))
-    if crashed and not any(s[0] == "crash" for s in res):
-        ctx.oblige("harness exits cleanly", "correspondence", False, ierr[-1500:])
-    ctx.oblige("memory manager balance: every block returned at destruction (live == 0)", "correspondence",
-               live == 0 or crashed, "live=%r" % live)
-    for o in seqs[ncorpus:ncorpus + 200]:
-        for op in o:
-            k = op.split()[1]
-            ctx.hist["op:" + k] = ctx.hist.get("op:" + k, 0) + 1
+    T = ctx.thorough
+    plan = {  # kind: (number of sequences, max ops)
+        "vec": (1500, 60) if not T else (20000, 200),
+        "map": (1500, 70) if not T else (20000, 250),
+        "set": (300, 160) if not T else (2000, 400),
+        "deq": (800, 60) if not T else (10000, 200),
+        "lst": (1200, 60) if not T else (15000, 200),
+        "str": (1500, 50) if not T else (20000, 150),
+    }
+    gens = {
+        "vec": lambda: G.gen_vec(r, plan["vec"][1], alias=(nbox[0] % 6 == 0 and nbox[0] < 1200)),
+        "map": lambda: G.gen_map(r, plan["map"][1] if not big_box[0] else 260, big=big_box[0]),
+        "set": lambda: G.gen_set(r, plan["set"][1]),
+        "deq": lambda: G.gen_deq(r, plan["deq"][1], multi=(nbox[0] % 4 == 0 and nbox[0] < 1200)),
+        "lst": lambda: G.gen_lst(r, plan["lst"][1]),
+        "str": lambda: G.gen_str(r, plan["str"][1], defects=(nbox[0] % 5 == 0 and nbox[0] < 1500)),
+    }
+    big_box = [False]
+    # requests of the classes listed in known_findings.json (aliasing value, deque resize by > 1, string resize-grow /
+    # npos forms) are confined to a bounded number of sequences per stream: on the unrepaired tree every one of them ends
+    # its sequence (some abort the harness), on the repaired tree they are checked like everything else
+    nbox = [0]
+    agree = [True]
+    unrun = [0]
+    total_leak = 0
+    kinds = ["vec", "map", "set", "deq", "lst", "str"]
+    if nolib:
+        kinds.remove("str")
+        ctx.oblige("XalanDOMString correspondence was run (VERIF_C20_NOLIB unset)", "correspondence", False,
+                   "VERIF_C20_NOLIB=1 is for mutation trials only")
+    for kind in kinds:
+        seqs = [list(ops) for k, ops in CORPUS if k == kind]
+        ncorpus = len(seqs)
+        for n in range(plan[kind][0]):
+            nbox[0] = n
+            big_box[0] = (kind == "map" and n % 12 == 0)   # default-parameter maps: rehash at 40, compaction at 50 erases
+            seqs.append(gens[kind]())
+        if T:
+            seqs.extend(exhaustive_small(kind))
+        seqs = [s for s in seqs if s]
+        if kind == "vec":
+            # sequences ending in an aliasing request may abort the harness on the unrepaired tree: run them last
+            seqs = ([s for s in seqs if s[-1].split()[1] not in ("insself", "resizeself")] +
+                    [s for s in seqs if s[-1].split()[1] in ("insself", "resizeself")])
+            ncorpus = 0
+        res, leaked, mseq = rn.run(kind, seqs, kind)
+        total_leak += leaked
+        nbad = 0
+        for si, st in enumerate(res):
+            ops = seqs[si]
+            feats = features(kind, mseq[si])
+            if kind == "vec":
+                nontriv = len(ops) > 3 and any(o.split()[1] in ("ins1", "insn", "insr", "erase", "resize", "copy", "assign",
+                                                                "insself", "resizeself") for o in ops)
+            else:
+                nontriv = bool(feats)
+            ctx.case(nontrivial_key=" ; ".join(ops) if nontriv else None,
+                     sample={"kind": kind, "ops": ops} if si == ncorpus else None,
+                     cls="%s:len<=10" % kind if len(ops) <= 10 else "%s:len<=40" % kind if len(ops) <= 40 else "%s:len>40" % kind)
+            for ft in feats:
+                ctx.hist["reach:%s:%s" % (kind, ft)] = ctx.hist.get("reach:%s:%s" % (kind, ft), 0) + 1
+            if st[0] == "unrun":
+                unrun[0] += 1
+            elif st[0] != "ok":
+                nbad += 1
+                if nbad <= 40 or known(ctx, "%s.%s[%s]" % (kind, "std-mismatch" if st[0] == "std" else "crash",
+                                                              (G.tags(kind, ops) or ["?"] * len(ops))[st[1]])):
+                    judge(ctx, rn, kind, ops, st, agree)
+                else:
+                    ctx.hist["unjudged-failing-sequences"] = ctx.hist.get("unjudged-failing-sequences", 0) + 1
+        for o in seqs[ncorpus:ncorpus + 150]:
+            for op in o:
+                t = op.split()
+                ctx.hist["op:%s.%s" % (t[0], t[1])] = ctx.hist.get("op:%s.%s" % (t[0], t[1]), 0) + 1
+    ctx.oblige("correspondence: real containers / XalanDOMString = Lean models on every generated request log", "correspondence",
+               agree[0], json.dumps(ctx.extra.get("model_disagreements", [])[:3]))
+    ctx.oblige("every generated sequence was evaluated on the real code", "correspondence", unrun[0] == 0,
+               "%d sequences not evaluated (harness crashed repeatedly)" % unrun[0])
+    ctx.oblige("memory manager balance: every block returned when the containers are destroyed", "correspondence",
+               total_leak == 0, "blocks not returned: %r" % total_leak)
     ctx.exhaustive = False
 
 
 def replay(ctx, path):
-    import json
     d = json.load(open(path))
-    ops = d["first"]["input"] if "first" in d else []
+    inp = d.get("first", {}).get("input") or {}
+    kind, ops = inp.get("kind"), inp.get("ops", [])
     ctx.build("hooks")
     common.lake_build(["xm_c20"])
-    model = ctx.exe("xm_c20")
-    harness = common.build_harness("c20_containers", ["c20_containers.cpp"], flavor="hooks", sanitize=True)
-    work = os.path.join(common.CACHE, "work")
-    os.makedirs(work, exist_ok=True)
-    res, live, crashed, ierr, req = run_stream(harness, model, [ops], work, "replay")
+    if not kind:
+        print("replay file names no failing input; broken obligations:")
+        for o in d.get("broken_obligations", []):
+            print("  ", o.get("name"), "--", (o.get("detail") or "")[:1500])
+        return 1
+    rn = Runner(ctx)
+    res, _, mseq = rn.run(kind, [ops], "replay")
+    print("kind:", kind)
     print("ops:", ops)
+    print("tags:", G.tags(kind, ops))
     print("result:", res[0])
+    print("model replies:", mseq[0])
     return 0 if res[0][0] == "ok" else 1
